@@ -17,7 +17,7 @@
                                                             equality_reflexive
    "conversions follow the documented coercions"            accessors_report_value (pure functions = Spec's),
                                                             null_coercions, integral_conversion_preserves_value,
-                                                            integral_conversion_wraps, int_to_double_exact,
+                                                            integral_conversion_wraps, int_to_double_exact, int64_to_double_exact,
                                                             int_double_int, decimal_string_roundtrip,
                                                             int_equals_its_decimal_string
    The quantifier "all alternative types, nested containers": values are arbitrary trees (VariantSpec.value),
@@ -148,6 +148,11 @@ Theorem int_to_double_exact : forall s z,
 Proof. exact VariantSpecProofs.int_to_double_exact. Qed.
 Print Assumptions int_to_double_exact.
 
+Theorem int64_to_double_exact : forall s z,
+  (s = SI64 z \/ s = SU64 z) -> (- 2 ^ 53 < z < 2 ^ 53)%Z -> let '(m, e) := to_dbl (VS s) in (m * 2 ^ e = z /\ 0 <= e)%Z.
+Proof. exact VariantSpecProofs.int64_to_double_exact. Qed.
+Print Assumptions int64_to_double_exact.
+
 Theorem int_double_int : forall z,
   (-2147483648 <= z < 2147483648)%Z -> let '(m, e) := to_dbl (VS (SInt z)) in to_int (VS (SDbl m e)) = Some z.
 Proof. exact VariantSpecProofs.int_double_int. Qed.
@@ -170,13 +175,7 @@ Proof. exact VariantSpecProofs.int_equals_its_decimal_string. Qed.
 Print Assumptions int_equals_its_decimal_string.
 
 (* ---- non-vacuity: a concrete history with sharing, nesting and a copy-on-write step ---- *)
-Definition ex_l0 : list op :=
-  [ OSetStr 0 [] [97; 98]%Z;
-    OSetNode 1 [] KList [([], 0%nat); ([], 0%nat)];
-    OCopyNew 2 1;
-    OSetNode 0 [] KMap [([107%Z], 1%nat); ([108%Z], 2%nat)] ].
-Definition ex_cow : op := OStrAppend 1 [(KList, ByIdx 0)] [120%Z].
-
+(* ex_l0 / ex_cow are defined in VariantMain.v *)
 (* after ex_l0: the string block is held twice (both list entries), the list block four times
    (variables 1 and 2 and both map entries), the map once *)
 Example ex_shared_state :
